@@ -35,6 +35,11 @@ def cells(tier):
                     yield vec, byp, key
 
 
+def author_options(raw):
+    from bert_e.settings import SettingsSchema
+    return SettingsSchema().fields['pr_author_options'].deserialize(raw)
+
+
 def run_real(vec, byp, key):
     import bert_e.exceptions as exc
     from bert_e.workflow.gitwaterflow import check_build_status
@@ -43,10 +48,14 @@ def run_real(vec, byp, key):
         job_s['bypass_build_status'] = True
     else:
         glob_s['bypass_build_status'] = (byp == 'cmdline')
+    # the per-author settings go through the real loader of the settings file (PrAuthorsOptions.deserialize),
+    # with the other author's entry first: what is granted to somebody else must not reach this author
     if byp in ('author', 'comment+author'):
-        glob_s['pr_author_options'] = {'author': {'bypass_build_status': True}}
+        glob_s['pr_author_options'] = author_options({'somebody': ['bypass_jira_check'],
+                                                      'author': ['bypass_build_status']})
     elif byp == 'other-author':
-        glob_s['pr_author_options'] = {'somebody': {'bypass_build_status': True}}
+        glob_s['pr_author_options'] = author_options({'somebody': ['bypass_build_status'],
+                                                      'author': ['bypass_jira_check']})
     branches = [StubBranch('w/%d.0/feature/x' % (4 + i), 'sha%d' % i) for i in range(len(vec))]
     repo = StubRepo({('sha%d' % i, key): st for i, st in enumerate(vec)})
     job = make_job(job_s, glob_s, repo=repo)
